@@ -3,8 +3,10 @@ module verif/harness
 go 1.21
 
 require (
+	github.com/pelletier/go-toml v1.8.0
 	github.com/sirupsen/logrus v1.4.2
 	github.com/taskctl/taskctl v0.0.0
+	gopkg.in/yaml.v2 v2.3.0
 )
 
 require (
